@@ -71,6 +71,13 @@ def ip_table(strings):
                 for j in closes:
                     if j > i: cands.add(v[i + 1:j])
             cands.add(v); cands.add(v.strip("[]"))
+            # Uri-Host values that get_request_uri will look at: the percent-decoded, lower-cased host of the URI
+            for mm in re.finditer(r"//([^/?#]*)", v):
+                hp = mm.group(1).rpartition("@")[2]
+                for piece in {hp, hp.partition(":")[0], hp.rpartition(":")[0]}:
+                    for w in {piece, urllib.parse.unquote(piece, errors="replace")}:
+                        w = lower_ascii(w)
+                        cands.add(w); cands.add(w.removeprefix("[").removesuffix("]"))
     for c in list(cands): cands.add(lower_before_pct(c))
     tbl = {}
     for c in cands:
@@ -347,11 +354,12 @@ class C16(fw.Property):
     design_ref = "DESIGN.md section 20"
     technique = ("Coq proofs (round-trips by induction over all strings / segment lists) over quoting kernels translated from the source and a hand-written "
                  "executable model of set_request_uri / get_request_uri / urlsplit / unquote; differential correspondence + RFC 7252 6.4/6.5 oracle")
-    level_text = ("Theorems (closed under the global context) over quote / quote_nonascii / hostportjoin regenerated from the source on every run and over the "
+    level_text = ("Theorems (closed under the global context) over quote / quote_nonascii / hostportjoin and the three safe sets regenerated from the source on every run and over the "
                   "hand-written model of urllib.parse (urlsplit, hostname/port, unquote, urlunparse), set_request_uri, get_request_uri and UndecidedRemote: "
-                  "UTF-8 and percent-coding round-trip for every Unicode string and both safe sets, path/query segment lists round-trip except the stated degenerate "
-                  "ones, options -> URI -> options for every non-degenerate option set, every rejection on the modelled domain is MalformedUrlError / IncompleteUrlError "
-                  "(full strength since the repairs 1c4d498/9bbf9d1; the one open finding, unescaped reserved characters of Uri-Host in get_request_uri, is carried as an explicit hypothesis and a _refuted witness), host/port join-split round-trip for names, IPv4 and bracketed IPv6 literals with zones.")
+                  "UTF-8 and percent-coding round-trip for every Unicode string and every safe set, path/query segment lists round-trip except the stated degenerate "
+                  "ones, options -> URI -> options for every non-degenerate option set (Uri-Host with any reserved / non-ASCII characters, IPv4 literal and bracketed IPv6+zone remotes), "
+                  "injectivity of composition (distinct resources never collapse), URI -> options -> URI -> options for every accepted URI with a named residue, every rejection of every "
+                  "string is MalformedUrlError / IncompleteUrlError, 6.4 host rules, host/port join-split round-trip for names, IPv4 and bracketed IPv6 literals with zones.")
     level_note = ("Trusted: Coq kernel + vm_compute; the str translator translate/jobs/c16.py and Model/C16Str.v intrinsics; the hand model's correspondence (sampled); "
                   "ipaddress (its results are an input table of the model; theorems assume idempotence/alphabet of its normal forms), CPython's UTF-8 codec and urllib.parse "
                   "beyond the modelled functions. A network location with non-ASCII characters (NFKC check, Unicode lower-casing) is outside the model: oracle-only.")
@@ -486,7 +494,7 @@ class C16(fw.Property):
             # RFC 7252 6.4 step 5: an IP literal is not sent as Uri-Host; the code tests netloc.startswith("[") which an empty user info defeats
             return ("C16:ip-literal-sent-as-uri-host", "%r -> Uri-Host %r although the host is an IP literal" % (uri, d1["host"]))
         if reserved_host:
-            # one finding, whatever its symptom: get_request_uri does not percent-encode reserved characters of Uri-Host
+            # (repaired by 76b5301; the signature is kept so that a regression is a VIOLATION) get_request_uri did not percent-encode reserved characters of Uri-Host
             ok = (isinstance(u2, str) and not u2.startswith("exn:") and isinstance(d2, dict) and "proxy" not in d2 and
                   all(d1[f] == d2[f] for f in ("path", "query", "scheme", "host")) and self._authority(d1) == self._authority(d2) and u3 == u2)
             return None if ok else ("C16:compose-host-not-escaped", "%r -> Uri-Host %r -> get_request_uri %r -> %r" % (uri, d1["host"], u2, d2))
